@@ -130,6 +130,53 @@ func multiBfsCheck(prop string, parts []part, extraAssume []string) {
 	}
 }
 
+// comboCheck registers a property decided by one BFS exploration plus grids.
+func comboCheck(prop, driver string, mk func() Driver, qd, td, qc, tc int, grids []func() GridDriver, gq, gt int, extraAssume []string) {
+	Registry[prop] = &Check{
+		Run: func(tier string, seed int64) int {
+			kf := LoadFindings()
+			o := Options{Property: prop, Tier: tier, Seed: seed, Workers: Workers(), Depth: qd, ConfCap: qc, Deadline: 8 * time.Minute}
+			gconf := gq
+			if tier == "thorough" {
+				o.Depth, o.ConfCap, o.Deadline = td, tc, 60*time.Minute
+				gconf = gt
+			}
+			o.Depth = EnvInt("VERIF_DEPTH", o.Depth)
+			o.Params = map[string]any{"depth": o.Depth, "tier": tier}
+			st := Explore(mk, o, kf)
+			Conformance(mk, st, o)
+			if len(st.Violations) > 0 {
+				return Finish(mk, driver, st, o, nil, extraAssume)
+			}
+			// vacuity guards of the BFS part
+			if len(st.Outcomes) < 2 || st.Changed == 0 {
+				hpanic("VACUOUS: BFS part of %s: outcomes %v", prop, st.Outcomes)
+			}
+			gs := newGridStats()
+			for _, g := range grids {
+				RunGrid(g, prop, tier, seed, gconf, kf, gs)
+			}
+			return FinishGrid(prop, "grid", tier, seed, gs, st, extraAssume)
+		},
+		Replay: func(rf *ReplayFile) int {
+			if rf.Driver == "grid" {
+				return replayGrid(rf, grids)
+			}
+			v, names := ReplayOps(mk, rf.Ops)
+			for i, n := range names {
+				fmt.Printf("  %2d. %s\n", i+1, n)
+			}
+			if v == nil {
+				fmt.Printf("replay of %s: the operation list runs without a violation on this tree\n", rf.Property)
+				return 0
+			}
+			fmt.Printf("replay of %s: %s\n", rf.Property, v.String())
+			fmt.Printf("VIOLATION property=%s replay=%s\n", rf.Property, os.Getenv("VERIF_REPLAY_PATH"))
+			return 1
+		},
+	}
+}
+
 func mergeStats(a, b *Stats) *Stats {
 	if a == nil {
 		return b
@@ -190,6 +237,8 @@ func init() {
 		{"nns-records", func() Driver { return NewNNSDriver("C12r") }, 3, 5, 80, 600},
 		{"nns-cname", func() Driver { return NewNNSDriver("C12c") }, 5, 16, 80, 600},
 	}, nil)
+	comboCheck("C14", "container-roster", func() Driver { return NewRosterDriver() }, 4, 6, 40, 200,
+		[]func() GridDriver{func() GridDriver { return NewSigGrid() }}, 40, 200, nil)
 	bfsCheckT("C08", "netmap-history", func(tier string) func() Driver {
 		if tier == "thorough" {
 			return func() Driver { return NewSnapDriver([]int{0, 1, 2, 3, 4, 5, 6, 7, 8, 9, 10, 11, 12}, 30, 2) }
